@@ -109,7 +109,7 @@ func init() {
 				guardRe("block H+2 verified", `^nil\(`+strings.TrimSuffix(next, "#0")+`#1\)$`),
 				guardRe("consensus params verified", `^nil\(.*\.ConsensusParams\(ctx, .*\)#1\)$`),
 			} {
-				c.Check(c.ge().ensures(f, g, 0), fk+" ensures "+g.Name, w.pos(f.Pos()), "state returned only behind it", "State() can return a state without: "+g.Name)
+				c.Check(c.ge().ensures(f, g, 2), fk+" ensures "+g.Name, w.pos(f.Pos()), "state returned only behind it", "State() can return a state without: "+g.Name)
 			}
 		}
 		if f := c.fn("statesync", "lightClientStateProvider.AppHash"); f != nil {
@@ -125,7 +125,7 @@ func init() {
 				}
 			}
 			c.Check(ok, fk+" :: app hash of height H is taken from the verified header H+1", w.pos(f.Pos()), "header(H+1).AppHash", "AppHash returns something else")
-			c.Check(c.ge().ensures(f, guardRe("block H+1 verified", `^nil\(s\.lc\.VerifyLightBlockAtHeight\(ctx, \(height \+ 1\), time\.Now\(\)\)#1\)$`), 0), fk+" ensures block H+1 verified", w.pos(f.Pos()), "guarded", "app hash returned without verification")
+			c.Check(c.ge().ensures(f, guardRe("block H+1 verified", `^nil\(s\.lc\.VerifyLightBlockAtHeight\(ctx, \(height \+ 1\), time\.Now\(\)\)#1\)$`), 2), fk+" ensures block H+1 verified", w.pos(f.Pos()), "guarded", "app hash returned without verification")
 		}
 		if f := c.fn("statesync", "lightClientStateProvider.Commit"); f != nil {
 			fk := funcKey(f)
@@ -196,7 +196,7 @@ func init() {
 			c.Check(regexp.MustCompile(`^s\.verifyApp\(snapshot, s\.stateProvider\.State\(.*\)#0\.Version\.Consensus\.App\)$`).MatchString(w.callStr(call)), fk+" :: app version checked against the light-verified state's", w.ipos(call), w.callStr(call), w.callStr(call))
 		}
 		for _, g := range []Guard{appHashOK, offerOK, stateOK, commitOK, chunksOK, verifyOK} {
-			c.Check(c.ge().ensures(f, g, 0), fk+" ensures "+g.Name, w.pos(f.Pos()), "success only behind it", "Sync can report success without: "+g.Name)
+			c.Check(c.ge().ensures(f, g, 2), fk+" ensures "+g.Name, w.pos(f.Pos()), "success only behind it", "Sync can report success without: "+g.Name)
 		}
 		// returned state/commit are the provider's
 		for _, sp := range successPoints(w, f) {
@@ -224,7 +224,7 @@ func init() {
 				guardCmp("app height equals the snapshot height", info+`\.LastBlockHeight`, "==", `snapshot\.Height`),
 				guardRe("Info call succeeded", `^nil\(s\.connQuery\.InfoSync\(proxy\.RequestInfo\)#1\)$`),
 			} {
-				c.Check(c.ge().ensures(f, g, 0), funcKey(f)+" ensures "+g.Name, w.pos(f.Pos()), "nil only behind this check", "verifyApp can accept without: "+g.Name)
+				c.Check(c.ge().ensures(f, g, 2), funcKey(f)+" ensures "+g.Name, w.pos(f.Pos()), "nil only behind this check", "verifyApp can accept without: "+g.Name)
 			}
 		}
 		if f := c.fn("statesync", "syncer.offerSnapshot"); f != nil {
@@ -252,7 +252,7 @@ func init() {
 				c.Check(cases[v], fk+" :: handles verdict "+name, w.pos(f.Pos()), "case present", "verdict "+name+" has no case (falls to the default)")
 			}
 			accept := c.mustConst("abci/types", "ResponseOfferSnapshot_ACCEPT")
-			c.Check(c.ge().ensures(f, guardCmp("verdict is ACCEPT", `.*\.Result`, "==", fmt.Sprint(accept)), 0), fk+" :: nil only for ACCEPT", w.pos(f.Pos()), "success only on ACCEPT", "offerSnapshot can return nil for a verdict other than ACCEPT")
+			c.Check(c.ge().ensures(f, guardCmp("verdict is ACCEPT", `.*\.Result`, "==", fmt.Sprint(accept)), 2), fk+" :: nil only for ACCEPT", w.pos(f.Pos()), "success only on ACCEPT", "offerSnapshot can return nil for a verdict other than ACCEPT")
 		}
 		if f := c.fn("statesync", "syncer.applyChunks"); f != nil {
 			fk := funcKey(f)
